@@ -475,11 +475,46 @@ func (n *onode) ref(tr *[]string) (interface{}, bool) {
 	return nil, true
 }
 
+// operand order in statements whose operands interact: `x op= e` stands for `x = x op e` (x is read BEFORE e runs; an undefined
+// x fails before e runs); the operands of an assignment TARGET are evaluated once, also when the store has to replace the
+// container it found (append at index len, first store into a nil map, string element)
+var orderTemplates = []struct {
+	src  string
+	want []string
+}{
+	{"x = 1\nfunc bump() {\nx = 100\nreturn probe(5)\n}\nx += bump()\nprobe(x)", []string{"(i 5)", "(i 6)"}},
+	{"x = 10\nfunc bump() {\nx = 100\nreturn probe(1)\n}\nx -= bump()\nprobe(x)", []string{"(i 1)", "(i 9)"}},
+	{"x = 2\nfunc bump() {\nx = 100\nreturn probe(3)\n}\nx *= bump()\nprobe(x)", []string{"(i 3)", "(i 6)"}},
+	{"try {\nnosuch += probe(1)\n} catch e {\nprobe(-1)\n}", []string{"(i -1)"}},
+	{"try {\nnosuch -= probe(1)\n} catch e {\nprobe(-1)\n}", []string{"(i -1)"}},
+	{"s = \"a\"\nfunc t() {\ns = \"z\"\nreturn probe(\"b\")\n}\ns += t()\nprobe(s)", []string{"(s 62)", "(s 6162)"}},
+	{"a = [[1]]\nfunc k() {\nprobe(7)\nreturn 0\n}\na[k()][1] = 2\nprobe(a)", []string{"(i 7)", "(l (l (i 1) (i 2)))"}},
+	{"a = [[1], [5]]\nn = 0\nfunc k() {\nn++\nreturn n - 1\n}\na[k()][1] = 2\nprobe([a, n])", []string{"(l (l (l (i 1) (i 2)) (l (i 5))) (i 1))"}},
+	{"ms = make([]map[string]int64, 2)\nn = 0\nfunc k() {\nn++\nreturn n - 1\n}\nms[k()][\"x\"] = 1\nprobe([len(ms[0]), len(ms[1]), n])", []string{"(l (i 1) (i 0) (i 1))"}},
+	{"ss = [\"ab\", \"cd\"]\nn = 0\nfunc k() {\nn++\nreturn n - 1\n}\nss[k()][2] = \"!\"\nprobe([ss, n])", []string{"(l (l (s 616221) (s 6364)) (i 1))"}},
+	{"st = [{\"l\": [1]}]\nn = 0\nfunc k() {\nn++\nreturn 0\n}\nst[k()].l[1] = 2\nprobe([st[0].l, n])", []string{"(l (l (i 1) (i 2)) (i 1))"}},
+}
+
 func streamOrder(o *Out, r *rand.Rand, n int, thorough bool) {
 	o.Sum.Rule = "statements built from expression trees whose leaves are probe calls: script functions of 0-6 parameters (direct path and reflect path), variadic script " +
 		"functions, Go functions fixed / variadic, spread calls, wrong argument counts, a failing conversion in a later argument, + ?: ?? && || index, list and map " +
 		"literals, return lists, multi-assignment, defer; each statement in its own try so that errors are observable; expected probe order from an independent " +
 		"reference evaluator; distinct by request hash"
+	// fixed forms with their reference traces
+	for _, c := range orderTemplates {
+		st, err := parser.ParseSrc(c.src)
+		if err != nil {
+			o.Fail(Failure{Oracle: "order-template-parses", Key: "order-template-parse", Input: c.src, Detail: err.Error()})
+			continue
+		}
+		res := runVM(st, -1, 3*time.Second)
+		o.Case(fmt.Sprintf("(run %d _ %s)", modelFuel, astser.Prog(st)), res.line, c.src, true)
+		o.Sum.Hist["order-template"]++
+		if res.hung || res.panicked || res.err != nil || strings.Join(c.want, " ") != strings.Join(res.trace, " ") {
+			o.Fail(Failure{Oracle: "order-reference-trace", Key: "order-template:" + firstLine(c.src), Input: c.src,
+				Detail: fmt.Sprintf("expected probe order %v, interpreter produced %v (err %v)", c.want, res.trace, res.err)})
+		}
+	}
 	for i := 0; i < n; i++ {
 		g := &ogen{r: r}
 		var b strings.Builder
